@@ -710,8 +710,12 @@ pub fn run_c07<H: HB>(tier: Tier) -> Outcome {
         cfg.append_max = 2;
         let mut ex = Explorer::<H>::new(&cfg);
         ex.collect = Some(Default::default());
+        // which of several equal-ranking priorities the bulk operations keep (tagged priorities)
+        for p in crate::probes::all_probes::<H>(prop, &cfg.universe()) {
+            ex.probes.push(p);
+        }
         ex.run_closed();
-        out.absorb(&format!("E1 closed ({k} items x {m} priorities) with extend/append/conversion transitions"), &ex, t0);
+        out.absorb(&format!("E1 closed ({k} items x {m} priorities) with extend/append/conversion transitions; tagged-priority bulk probe from every state"), &ex, t0);
         if !out.violations.is_empty() {
             return out;
         }
@@ -770,6 +774,9 @@ pub fn run_c07<H: HB>(tier: Tier) -> Outcome {
         let seeds = if n <= 9 && !q || n <= 7 { f_bin(n) } else if n > 40 && q { f_large(n) } else if n > 40 { let mut v = f_large(n); if n < 100 { v.extend(f_struct(n)); } v } else { f_seg(n) };
         let mut ex = Explorer::<H>::new(&cfg);
         ex.collect = Some(Default::default());
+        for p in crate::probes::all_probes::<H>(prop, &cfg.universe()) {
+            ex.probes.push(p);
+        }
         let mut roots = vec![];
         for d in [false, true] {
             for s in &seeds {
@@ -778,7 +785,7 @@ pub fn run_c07<H: HB>(tier: Tier) -> Outcome {
         }
         ex.run(roots, Some(0));
         let nodes = ex.collect.take().unwrap().into_inner().unwrap();
-        out.absorb(&format!("E2 receivers of {n} elements"), &ex, t0);
+        out.absorb(&format!("E2 receivers of {n} elements (tagged-priority bulk probe from each)"), &ex, t0);
         if !out.violations.is_empty() {
             return out;
         }
